@@ -120,6 +120,13 @@ def wl_history(ctx, rng, case):
             except Exception:
                 ret, k = None, None
                 ctx.count("refused_misuse_calls")
+        elif r < 0.965:
+            # a configuration corner: the query type is switched away and back between operations; the counters must not care
+            case.op("toggle-query-type")
+            s.query_type = rng.choice(["mean", "mean-min", "MEAN", None, "bogus"])
+            s.query_type = "min"
+            k, ret = None, None
+            ctx.count("query_type_toggles")
         else:
             case.op("reload")
             s2 = cls.frombytes(bytes(s), **bl.kw_hash(hf))
